@@ -3,7 +3,7 @@ use emit::Level;
 use vcore::proptest::prelude::*;
 use vcore::Level as VLevel;
 
-const RULE: &str = "cases are (a) one MinLevelFilter (minimum, optional treat_unleveled_as) and one event whose `lvl` is absent, a typed Level (captured / behind Display / behind Debug), a text (level-name prefixes in any case with suffixes, padding and junk), an integer, a bool, a float or null, optionally followed by a shadowed second `lvl`; (b) one MinLevelPathMap built from 0-10 registrations (paths of 1-4 segments over {a,aa,b,ab,a_,e-acute}, repeats and overrides, per-entry unleveled defaults, optional map default set at a generated position) incrementally or through min_by_path_filter/FromIterator, and built a second time from the last-wins de-duplicated registrations in a generated permutation; 1-4 queries (module derived from a registered path by truncation, sibling substitution and extension, or free) x level value are judged against a linear-scan reference and the two builds must agree; (c) the same at level types u8 and a custom Sev(i64); (d) every configuration {unregistered, min Debug, min Error}^6 over the paths a, aa, a::a, a::aa, aa::a, a::a::a x default {none, Warn} x registration order {forward, reverse}, each queried with all 14 modules of depth <=3 over {a,aa} x 4 levels. Non-trivial = a map query whose module has >=2 distinct registered paths as textual prefixes (filters: level from non-canonical text / non-text value, or unleveled event with a configured default).";
+const RULE: &str = "cases are (a) one MinLevelFilter (minimum, optional treat_unleveled_as) and one event whose `lvl` is absent, a typed Level (captured / behind Display / behind Debug), a text (level-name prefixes in any case with suffixes, padding and junk), an integer, a bool, a float or null, optionally followed by a shadowed second `lvl`; (b) one MinLevelPathMap built from 0-10 registrations (paths of 1-4 segments over {a,aa,b,ab,a_,e-acute} and the digit siblings {a2,aa1,b9} -- a name followed by a character that sorts below ':' --, repeats and overrides, per-entry unleveled defaults, optional map default set at a generated position) through one of five construction routes (.min_level() calls in the given order, min_by_path_filter(iter), iter.collect(), MinLevelPathMap::from_iter(iter), or from_iter over a prefix followed by further .min_level()/.default_min_level() calls), and built a second time from the last-wins de-duplicated registrations in a generated permutation; 1-4 queries (module derived from a registered path by truncation, sibling substitution and extension, or free) x level value are judged against a linear-scan reference and the two builds must agree; (c) the same at level types u8 and a custom Sev(i64); (d) every configuration {unregistered, min Debug, min Error}^6 over the paths a, aa, a::a, a::aa, aa::a, a::a::a x default {none, Warn} x registration order {forward, reverse} x family {aa, a2 in place of aa} x route {.min_level(), min_by_path_filter}, each queried with all 14 modules of depth <=3 over the family's two names x 4 levels. Non-trivial = a map query whose module has >=2 distinct registered paths as textual prefixes (filters: level from non-canonical text / non-text value, or unleveled event with a configured default).";
 
 fn level_text() -> impl Strategy<Value = String> {
     const NAMES: [&str; 8] = ["information", "debug", "dbg", "error", "warning", "wrn", "informations", "errors"];
@@ -62,16 +62,25 @@ fn filt(max: u8) -> impl Strategy<Value = Filt> {
     (0..max, prop_oneof![2 => Just(None), 1 => (0..max).prop_map(Some)]).prop_map(|(min, unleveled)| Filt { min, unleveled })
 }
 
-fn path(max_depth: usize) -> impl Strategy<Value = Vec<u8>> {
-    // the first segments are biased towards the prefix-sharing family a / aa / ab / a_
-    prop::collection::vec(prop_oneof![3 => Just(0u8), 2 => Just(1u8), 1 => 2u8..6], 1..=max_depth)
+/// One segment. Biased towards the prefix-sharing family a / aa / ab / a_ and its digit siblings a2 / aa1 (a name
+/// followed by a character that sorts below ':'); with `invalid`, also names followed by `-`, `.`, `$`.
+fn seg(invalid: bool) -> BoxedStrategy<u8> {
+    if invalid {
+        prop_oneof![4 => Just(0u8), 2 => Just(6u8), 2 => Just(1u8), 1 => 2u8..9, 3 => 9u8..12].boxed()
+    } else {
+        prop_oneof![6 => Just(0u8), 4 => Just(6u8), 3 => Just(1u8), 2 => Just(7u8), 1 => Just(2u8), 1 => Just(8u8), 2 => 3u8..6].boxed()
+    }
 }
 
-fn regs() -> impl Strategy<Value = Vec<Reg>> {
+fn path(max_depth: usize, invalid: bool) -> impl Strategy<Value = Vec<u8>> {
+    prop::collection::vec(seg(invalid), 1..=max_depth)
+}
+
+fn regs(invalid: bool) -> impl Strategy<Value = Vec<Reg>> {
     // a pool of a few paths, registrations draw from the pool (so repeats/overrides are frequent)
-    (prop::collection::vec(path(4), 1..5), prop::collection::vec((any::<u32>(), 0u8..3), 0..=10)).prop_flat_map(|(pool, picks)| {
+    (prop::collection::vec(path(4, invalid), 1..5), prop::collection::vec((any::<u32>(), 0u8..3), 0..=10)).prop_flat_map(move |(pool, picks)| {
         let n = picks.len();
-        (Just(pool), Just(picks), prop::collection::vec(path(4), n), prop::collection::vec(any::<bool>(), n))
+        (Just(pool), Just(picks), prop::collection::vec(path(4, invalid), n), prop::collection::vec(any::<bool>(), n))
     })
     .prop_map(|(pool, picks, fresh, use_fresh)| {
         picks
@@ -86,26 +95,32 @@ fn regs() -> impl Strategy<Value = Vec<Reg>> {
     })
 }
 
-fn module_spec() -> impl Strategy<Value = ModuleSpec> {
+fn module_spec(invalid: bool) -> impl Strategy<Value = ModuleSpec> {
     prop_oneof![
-        1 => path(4).prop_map(ModuleSpec::Free),
-        5 => (any::<u32>(), 1u8..=4, prop_oneof![2 => Just(None), 1 => (0u8..6).prop_map(Some)], prop::collection::vec(prop_oneof![2 => 0u8..2, 1 => 0u8..6], 0..=2))
+        1 => path(4, invalid).prop_map(ModuleSpec::Free),
+        5 => (any::<u32>(), 1u8..=4, prop_oneof![2 => Just(None), 1 => seg(invalid).prop_map(Some)], prop::collection::vec(seg(invalid), 0..=2))
             .prop_map(|(reg, keep, sibling, extra)| ModuleSpec::Related { reg, keep, sibling, extra }),
     ]
 }
 
 fn map_case(max: u8, numeric: bool) -> impl Strategy<Value = MapCase> {
+    // 4 % of the cases use the alphabet with invalid identifiers (executed, nothing asserted)
+    prop::bool::weighted(0.04).prop_flat_map(move |invalid| map_case_over(max, numeric, invalid))
+}
+
+fn map_case_over(max: u8, numeric: bool, invalid: bool) -> impl Strategy<Value = MapCase> {
     let lv = if numeric { lvl_val_numeric().boxed() } else { lvl_val(3).boxed() };
     (
-        regs(),
+        regs(invalid),
         prop::collection::vec(filt(max), 10),
         prop_oneof![1 => Just(None), 1 => filt(max).prop_map(Some)],
         (any::<u32>(), any::<u32>()),
-        any::<bool>(),
+        // construction route of the first build: min_level 25 %, min_by_path_filter 25 %, collect 15 %, from_iter 15 %, mix 20 %
+        (prop_oneof![5 => Just(1u8), 5 => Just(2u8), 3 => Just(3u8), 3 => Just(4u8), 4 => Just(5u8)], any::<u32>()),
         prop::collection::vec(any::<u32>(), 10),
-        prop::collection::vec((module_spec(), 0u8..3, ev_level(lv)), 1..=4),
+        prop::collection::vec((module_spec(invalid), 0u8..3, ev_level(lv)), 1..=4),
     )
-        .prop_map(|(mut regs, filts, default, default_at, from_iter, perm, queries)| {
+        .prop_map(|(mut regs, filts, default, default_at, (route, mix_at), perm, queries)| {
             for (r, f) in regs.iter_mut().zip(filts) {
                 r.filt = f;
             }
@@ -113,9 +128,11 @@ fn map_case(max: u8, numeric: bool) -> impl Strategy<Value = MapCase> {
                 regs,
                 default,
                 default_at,
-                from_iter,
+                from_iter: route != 1,
                 perm,
                 queries: queries.into_iter().map(|(module, mflavor, ev)| Query { module, mflavor, ev }).collect(),
+                route,
+                mix_at,
             }
         })
 }
@@ -134,7 +151,8 @@ fn main() {
             "an event whose `lvl` value has no recognisable level (text rejected by the documented lenient rule, numbers, bools, null) counts as an event without a level: the filter's unleveled default, else Info, applies",
             "the lenient rule is applied to the text the value displays (integers, floats and bools included: `inf` therefore reads as Info); texts whose unmatched tail contains control or non-ASCII characters are left open (don't-care), as in C15",
             "registering the same path again replaces its earlier minimum (last registration wins); permutation invariance is asserted for the last-wins de-duplicated registrations",
-            "module paths are valid paths (Path documents behaviour on invalid paths as undefined)",
+            "behaviour on invalid paths is documented as undefined (may panic or give unexpected results): the 4 % of map cases whose alphabet contains names followed by `-`, `.` or `$` are executed but nothing is asserted about them; among the characters that sort below ':' only digits can appear in a valid path, and those are asserted",
+            "several registrations of one path inside ONE iterator handed to min_by_path_filter / collect / from_iter behave like repeated min_level calls (last wins): that is what the unchanged tree does (from_iter is a loop over min_level) and what the docs of min_level imply",
             "at level types other than Level (u8, custom Sev) only absent values and in-range integers have a defined level; every other value is don't-care (totality only)",
         ],
         |s| {
@@ -152,6 +170,14 @@ fn main() {
             s.require("lvl:integer", 50_000);
             s.require("outcome:accept", 100_000);
             s.require("outcome:reject", 100_000);
+            s.require("route:min_level", 50_000);
+            s.require("route:min_by_path_filter", 30_000);
+            s.require("route:collect", 30_000);
+            s.require("route:from-iter", 30_000);
+            s.require("route:mix", 40_000);
+            s.require("siblings:one-is-other-plus-char-below-colon", 50_000);
+            s.require("siblings:one-is-other-plus-char-below-colon-with-descendant-of-shorter", 20_000);
+            s.require("route:iterator-built+siblings-below-colon-with-descendant", 15_000);
 
             s.gen("min-level-filter", s.n(1_500_000, 30_000_000), || filter_case(4, false), check_level_filter_case);
             s.gen("min-level-filter-u8", s.n(300_000, 5_000_000), || filter_case(8, true), |c, cx| {
@@ -176,9 +202,11 @@ fn main() {
             s.enumerate(
                 "path-map-small-scope",
                 (0u16..729).flat_map(|config| {
-                    [(false, false), (false, true), (true, false), (true, true)]
-                        .into_iter()
-                        .map(move |(default_warn, reverse)| SmallMap { config, default_warn, reverse })
+                    [(false, false), (false, true), (true, false), (true, true)].into_iter().flat_map(move |(default_warn, reverse)| {
+                        [(0u8, 0u8), (0, 1), (1, 0), (1, 1)]
+                            .into_iter()
+                            .map(move |(family, route)| SmallMap { config, default_warn, reverse, family, route })
+                    })
                 }),
                 check_small_map,
             );
